@@ -27,7 +27,7 @@ func (C05) Rule() string {
 		"instance as foreign neighbours, store-level DeleteRange ops and restarts; at check points, for sampled versions and intervals [lo,hi] (empty, single-key, prefix-related, " +
 		"whole-space, ends equal to existing keys) every listing/range endpoint (keys, keyrange, keyrangevalues json|tar|protobuf, keyvalues json|tar, store-level GetRange, " +
 		"KeysInRange, SendKeysInRange, ProcessRange) is compared with the set of point reads {k in [lo,hi] : GET k = 200} (relational oracle), and DeleteRange against the model. " +
-		"non-trivial = history has a branch or merge and a delete; distinct = distinct (steps, schedule, faults) hash"
+		"a boundary-value family writes 999..3000 keys (around the badger driver's internal DeleteRange batch of 1000) into one version and checks the listing and a store-level DeleteRange over all, all but one, or the first 1000 of them; non-trivial = history has a branch or merge and a delete; distinct = distinct (steps, schedule, faults) hash"
 }
 func (C05) Assumptions() []string { return commonAssumptions }
 func (C05) Budget(tier string) (int, time.Duration) {
@@ -38,6 +38,13 @@ var c05Keys = []string{"a", "aa", "ab", "abc", "b", "ba", "c", "m", "zz"}
 var c05Ends = []string{"0", "a", "aa", "ab", "abc", "abd", "b", "ba", "bz", "c", "m", "n", "zz", "zzz"}
 
 func (C05) Generate(r *rand.Rand, tier string, idx int) *drv.Scenario {
+	if idx%25 == 7 {
+		// boundary-value family: ranges holding a number of keys around the driver's internal batch sizes
+		n := pick(r, []int{999, 1000, 1001, 2000, 1999, 3000})
+		sc := &drv.Scenario{Family: "driver-batch-boundary", Knobs: baseKnobs(r), Fixed: 1,
+			Steps: []drv.Op{{Op: "bulk", N: int64(n), M: int64(r.IntN(3))}}}
+		return sc
+	}
 	fam := []string{"linear", "branchy", "mergey"}[r.IntN(3)]
 	nk := 3 + r.IntN(len(c05Keys)-2)
 	keys := append([]string(nil), c05Keys...)
@@ -89,6 +96,13 @@ func (c C05) Execute(sc *drv.Scenario, w *drv.World) (*drv.Violation, error) {
 	}
 	x := NewKVExec(w)
 	rng := drv.NewRNG(sc.Seed ^ 0xc05)
+	if len(sc.Steps) == 1 && sc.Steps[0].Op == "bulk" {
+		v, err := c.bulk(w, sc.Steps[0])
+		if err == nil && v == nil {
+			w.Discard()
+		}
+		return v, err
+	}
 	for i, op := range sc.Steps {
 		w.CurStep = i
 		handled, v, err := x.ApplyDAGOp(op)
@@ -522,6 +536,9 @@ func uvarint(b []byte) (uint64, int) {
 }
 
 func (C05) NonTrivial(sc *drv.Scenario, st *drv.RunStats) bool {
+	if st.Probes["driver-batch-boundary"] > 0 {
+		return true
+	}
 	structural, del := false, false
 	for _, op := range sc.Steps {
 		if op.Op == "merge" || op.Op == "branch" {
@@ -532,4 +549,93 @@ func (C05) NonTrivial(sc *drv.Scenario, st *drv.RunStats) bool {
 		}
 	}
 	return structural && del
+}
+
+// bulk: n keys in one version (n around the badger driver's DeleteRange batch of 1000), every listing form
+// must show exactly n keys; a store-level DeleteRange over part or all of them must remove exactly that part.
+func (C05) bulk(w *drv.World, op drv.Op) (*drv.Violation, error) {
+	u := VUUID(0)
+	if st, b, err := w.HTTP("POST", "/api/repos", jsonBody(map[string]interface{}{"alias": "bulk", "root": u})); err != nil || st != 200 {
+		if err == nil {
+			err = fmt.Errorf("%w: repo: %d %s", drv.ErrInfra, st, b)
+		}
+		return nil, err
+	}
+	if st, b, err := w.HTTP("POST", "/api/repo/"+u+"/instance", jsonBody(map[string]interface{}{"typename": "keyvalue", "dataname": "kv"})); err != nil || st != 200 {
+		if err == nil {
+			err = fmt.Errorf("%w: instance: %d %s", drv.ErrInfra, st, b)
+		}
+		return nil, err
+	}
+	n := int(op.N)
+	base := "/api/node/" + u + "/kv"
+	// POST keyvalues (protobuf) in chunks of 250 pairs
+	for lo := 0; lo < n; lo += 250 {
+		var body []byte
+		for i := lo; i < lo+250 && i < n; i++ {
+			k, v := fmt.Sprintf("k%05d", i), []byte(fmt.Sprintf("\"v%d\"", i))
+			var inner []byte
+			inner = append(inner, 0x0a)
+			inner = appendUvarint(inner, uint64(len(k)))
+			inner = append(inner, k...)
+			inner = append(inner, 0x12)
+			inner = appendUvarint(inner, uint64(len(v)))
+			inner = append(inner, v...)
+			body = append(body, 0x0a)
+			body = appendUvarint(body, uint64(len(inner)))
+			body = append(body, inner...)
+		}
+		st, b, err := w.HTTP("POST", base+"/keyvalues", body)
+		if err != nil {
+			return nil, err
+		}
+		if st != 200 {
+			return nil, fmt.Errorf("%w: bulk keyvalues: %d %s", drv.ErrInfra, st, trunc(b))
+		}
+	}
+	count := func() (int, string, error) {
+		st, b, err := w.HTTP("GET", base+"/keys", nil)
+		if err != nil {
+			return 0, "", err
+		}
+		var ks []string
+		if st != 200 || json.Unmarshal(b, &ks) != nil {
+			return 0, fmt.Sprintf("GET keys -> %d %s", st, trunc(b)), nil
+		}
+		return len(ks), "", nil
+	}
+	got, bad, err := count()
+	if err != nil {
+		return nil, err
+	}
+	if bad != "" || got != n {
+		return &drv.Violation{Prop: "C05", Oracle: "bulk-listing", Sig: "listing of a large key set is incomplete", Detail: fmt.Sprintf("%d keys written, GET keys lists %d %s", n, got, bad)}, nil
+	}
+	// delete [lo, hi): whole set, all but the last key, or the first 1000
+	lo, hi, want := "k00000", "kzzzzz", 0
+	switch op.M {
+	case 1:
+		hi, want = fmt.Sprintf("k%05d", n-2), 1 // inclusive upper end: leaves the last key
+	case 2:
+		if n > 1000 {
+			hi, want = "k00999", n-1000
+		}
+	}
+	res, err := w.Batch([]proto.Req{{Client: "c0", Kind: "store", Store: &proto.StoreOp{Op: "deleterange", Data: "kv", UUID: u, KeyBeg: lo, KeyEnd: hi}}}, "barrier")
+	if err != nil {
+		return nil, err
+	}
+	if res.Resps[0].Status != 200 {
+		return &drv.Violation{Prop: "C05", Oracle: "deleterange", Sig: "DeleteRange failed", Detail: res.Resps[0].Err}, nil
+	}
+	got, bad, err = count()
+	if err != nil {
+		return nil, err
+	}
+	if bad != "" || got != want {
+		return &drv.Violation{Prop: "C05", Oracle: "bulk-deleterange", Sig: "DeleteRange over a large key set leaves the wrong number of keys",
+			Detail: fmt.Sprintf("%d keys, DeleteRange [%s, %s] should leave %d, GET keys lists %d %s", n, lo, hi, want, got, bad)}, nil
+	}
+	w.Stats.Probe("driver-batch-boundary")
+	return nil, nil
 }
